@@ -115,9 +115,10 @@ class ImplWorld:
         k = self.classes['dom'][int(c)]
         kw = {}
         if name != '-': kw['name'] = name
-        if length != '-': kw['length'] = int(length)
+        # 'N' = the keyword is passed explicitly with the value None (a wrapper forwarding its own defaults)
+        if length != '-': kw['length'] = None if length == 'N' else int(length)
         if pfx != '-': kw['prefix'] = pfx
-        if dt != '-': kw['dtype'] = dt
+        if dt != '-': kw['dtype'] = None if dt == 'N' else dt
         return self._ret(k(**kw))
 
     def op_inv(self, h):
